@@ -1292,6 +1292,70 @@ enum Op {
     /// Link `link` of the chain removed: what 0 = its (signed or synthesized) CNAME, 1 = its DNAME (the
     /// synthesized CNAME stays), 2 = both.
     DropLink { link: usize, what: u8 },
+    // ---- malformed public key selected by a signature (hostile zone owner: the zone's real key re-signs)
+    /// A DNSKEY (flags 256, protocol 3, algorithm `alg`) whose public-key field is entry `shape` of
+    /// `bad_key_menu(alg)` is put in front of the DNSKEY RRset of zone `zone`, and RRSIGs whose algorithm and
+    /// key tag (RFC 4034 appendix B, `key_tag` of this file) select it are added.  What is done depends on the
+    /// message the fault is applied to:
+    /// * the upstream DNSKEY response of the zone: key added, RRset re-signed with the zone's real key, and an
+    ///   RRSIG(DNSKEY) selecting the malformed key put in front of the good one (`only`: instead of it);
+    /// * the upstream DS response for the zone: a DS (SHA-256) of the malformed key put in front of the good
+    ///   DS (`only`: instead of it), RRset re-signed with the parent's real key;
+    /// * the validated answer: in front of every RRSIG made by the zone an RRSIG selecting the malformed key
+    ///   (`only`: instead of it).
+    BadKey { zone: usize, alg: u8, shape: u8, only: bool },
+}
+
+/// The hostile public-key fields per DNSSEC algorithm: RSA (RFC 3110: exponent length in one or three octets,
+/// exponent, modulus) for 5, 7, 8, 10; fixed-length keys for 13 (64), 14 (96), 15 (32), 16 (57 octets).
+fn bad_key_menu(alg: u8) -> Vec<Vec<u8>> {
+    let rep = |head: &[u8], b: u8, n: usize| {
+        let mut v = head.to_vec();
+        v.extend(std::iter::repeat(b).take(n));
+        v
+    };
+    match alg {
+        5 | 7 | 8 | 10 => vec![
+            vec![],
+            vec![0],
+            vec![1],
+            vec![0, 0],
+            vec![0, 0, 0],
+            vec![0, 0, 1],
+            vec![1, 3],
+            vec![3, 1, 0, 1],
+            vec![4, 1, 0, 1],
+            vec![0, 0, 3, 1, 0],
+            vec![0, 0, 3, 1, 0, 1],
+            rep(&[0, 1, 0], 1, 256),
+            rep(&[0, 1, 0], 1, 255),
+            rep(&[1, 0], 0xC5, 256),
+            rep(&[3, 1, 0, 1, 0], 0xC5, 255),
+            rep(&[3, 1, 0, 1], 0xC5, 513),
+            rep(&[0, 2, 1], 0xC5, 513 + 256),
+            vec![1, 3, 0xC5],
+            rep(&[0xFF], 0xC5, 255),
+        ],
+        13 | 14 | 15 | 16 => {
+            let n = match alg {
+                13 => 64,
+                14 => 96,
+                15 => 32,
+                _ => 57,
+            };
+            vec![vec![], vec![0xC5], rep(&[], 0xC5, n - 1), rep(&[], 0xC5, n + 1), rep(&[], 0, n), rep(&[], 0xFF, n)]
+        }
+        _ => vec![],
+    }
+}
+
+const BAD_KEY_ALGS: [u8; 8] = [5, 7, 8, 10, 13, 14, 15, 16];
+
+fn bad_key_rdata(alg: u8, shape: u8) -> Option<Vec<u8>> {
+    let pk = bad_key_menu(alg).get(shape as usize)?.clone();
+    let mut v = vec![1, 0, 3, alg];
+    v.extend(pk);
+    Some(v)
 }
 
 impl Op {
@@ -1330,13 +1394,14 @@ impl Op {
             Op::OutOfBailiwick => "signer-not-ancestor".into(),
             Op::DsSignedByChild => "ds-signed-by-child".into(),
             Op::CnameToNodata => "cname-answer-replaced-by-nodata-with-own-nsec".into(),
+            Op::BadKey { alg, only, .. } => format!("malformed-{}-public-key-selected-by-rrsig-{}", if *alg <= 10 { "rsa" } else { "fixed-length" }, if *only { "instead-of-the-good-one" } else { "beside-the-good-one" }),
         }
     }
     /// Faults that need the zone's real private key (hostile zone owner):
     /// the data they produce is "authentic" by definition, so only the
     /// no-panic / termination part of the property is judged.
     fn owner_adversary(&self) -> bool {
-        matches!(self, Op::N3Owner { resign: true, .. } | Op::N3Param { .. } | Op::DsSignedByChild)
+        matches!(self, Op::N3Owner { resign: true, .. } | Op::N3Param { .. } | Op::DsSignedByChild | Op::BadKey { .. })
     }
 }
 
@@ -2641,6 +2706,65 @@ fn apply_op(h: &Hier, op: &Op, r: &mut Resp, main: bool) {
                 r.next_id = d.next_id + 3000;
             }
         }
+        Op::BadKey { zone, alg, shape, only } => {
+            let Some(krd) = bad_key_rdata(*alg, *shape) else { return };
+            let tag = key_tag(&krd);
+            let apexk = key(&h.zones[*zone].apex);
+            let select = |rd: &[u8]| {
+                let mut v = rd.to_vec();
+                v[2] = *alg;
+                v[16..18].copy_from_slice(&tag.to_be_bytes());
+                v
+            };
+            if main {
+                for s in 0..2 {
+                    let mut i = 0;
+                    while i < r.sec[s].len() {
+                        let e = r.sec[s][i].clone();
+                        if e.rr.rtype == T_RRSIG && e.src.0 == *zone && e.rr.rdata.len() > 20 {
+                            let mut rr = e.rr.clone();
+                            rr.rdata = select(&e.rr.rdata);
+                            if *only {
+                                r.sec[s][i].rr = rr;
+                            } else {
+                                r.insert_at(s, i, rr, e.src);
+                                i += 1;
+                            }
+                        }
+                        i += 1;
+                    }
+                }
+            } else if r.qtype == T_DNSKEY && key(&r.qname) == apexk {
+                let Some(k) = h.zones[*zone].key.clone() else { return };
+                let Some(i) = r.sec[0].iter().position(|e| e.rr.rtype == T_DNSKEY && e.src.0 == *zone) else { return };
+                let e = r.sec[0][i].clone();
+                let mut rr = e.rr.clone();
+                rr.rdata = krd.clone();
+                r.insert_at(0, i, rr, e.src);
+                resign_section(h, r, 0, *zone, &k);
+                if let Some(j) = r.sec[0].iter().position(|e| e.rr.rtype == T_RRSIG && e.src.0 == *zone && e.src.2 == T_DNSKEY && e.rr.rdata.len() > 20) {
+                    let g = r.sec[0][j].clone();
+                    let mut rr = g.rr.clone();
+                    rr.rdata = select(&g.rr.rdata);
+                    if *only {
+                        r.sec[0].retain(|e| !(e.rr.rtype == T_RRSIG && e.src.0 == *zone && e.src.2 == T_DNSKEY));
+                    }
+                    r.insert_at(0, j, rr, g.src);
+                }
+            } else if r.qtype == T_DS && key(&r.qname) == apexk {
+                let Some(i) = r.sec[0].iter().position(|e| e.rr.rtype == T_DS) else { return };
+                let e = r.sec[0][i].clone();
+                let pz = e.src.0;
+                let Some(k) = h.zones[pz].key.clone() else { return };
+                if *only {
+                    r.sec[0].retain(|x| x.rr.rtype != T_DS);
+                }
+                let mut rr = e.rr.clone();
+                rr.rdata = ds_rdata(&h.zones[*zone].apex, &krd);
+                r.insert_at(0, i, rr, e.src);
+                resign_section(h, r, 0, pz, &k);
+            }
+        }
         Op::OutOfBailiwick | Op::DsSignedByChild => {
             let Some(k) = h.zones[2].key.clone() else { return };
             for e in r.sec[0].iter_mut() {
@@ -3114,6 +3238,38 @@ impl Run {
         if ex.verdict.secure() && c.faults.iter().any(|f| f.op == Op::DsSignedByChild) {
             self.stats.count("info|ds-rrset-signed-by-the-child-zone-key-reported-secure");
         }
+        // malformed public key selected by a signature: besides "no panic, no loop" (above / raw_findings)
+        if !c.faults.is_empty() && c.faults.iter().all(|f| matches!(f.op, Op::BadKey { .. })) {
+            let only = c.faults.iter().any(|f| matches!(f.op, Op::BadKey { only: true, .. }));
+            let rsa = c.faults.iter().any(|f| matches!(f.op, Op::BadKey { alg, .. } if alg <= 10));
+            let route = if c.faults.iter().any(|f| matches!(f.target, Target::Up(_, T_DS))) { "ds-selects-the-key" } else { "answer-rrsig-selects-the-key" };
+            let comp = if via == "connection" { "connection" } else { "validator" };
+            let class = if rsa { "rsa" } else { "fixed-length" };
+            let got = ex.verdict.short();
+            self.stats.count(&format!("malformed-public-key|{via}|{route}|{class}|{}|{got}", if only { "only" } else { "beside-good" }));
+            if only {
+                // no well-formed key is selected by any signature over the data (resp. by any DS): nothing
+                // is covered by a valid signature chain
+                if ex.altered > 0 && ex.verdict.secure() {
+                    self.ctx.violation(
+                        &format!("C14|{comp}|malformed-public-key|{route}|key={class}|no-signature-by-a-well-formed-key|reported-Secure"),
+                        &format!("only signatures / DS records that select a DNSKEY with a malformed public key cover the data of scenario {} query {} {}, reported Secure [{kinds}]", h.name, show(&c.q.name), tname(c.q.qtype)),
+                        replay(),
+                    );
+                }
+            } else {
+                // the authentic key, DS and signatures are all still there (one unusable signature is within
+                // the validator's default tolerance for bad signatures): the answer is as authentic as before
+                let exp = expected_unmodified(h, &c.q);
+                if !exp.contains(&got.as_str()) {
+                    self.ctx.violation(
+                        &format!("C14|{comp}|malformed-public-key|{route}|key={class}|good-key-and-signature-also-present|expected={}|observed={got}", exp[0]),
+                        &format!("an additional DNSKEY with a malformed public key, and one signature selecting it, beside the authentic key and signatures: scenario {} query {} {} reported {:?} (ede {}), expected {:?} [{kinds}]", h.name, show(&c.q.name), tname(c.q.qtype), ex.verdict, ex.ede, exp),
+                        replay(),
+                    );
+                }
+            }
+        }
         let found = self.raw_findings(c, ex);
         if self.verbose {
             println!("  {via}: oracle findings: {}", found.len());
@@ -3313,6 +3469,52 @@ fn cases_for(hiers: &[Arc<Hier>], hi: usize, q: &Query, mode: u8, pairs: u8, cou
     };
     *counts.lock().unwrap().entry("cases|pair".into()).or_insert(0) += (menu.len() * menu.len().saturating_sub(1) / 2) as u64;
     (out, menu)
+}
+
+/// The dimension "malformed public key selected by a signature" for one (hierarchy, query): every zone of the
+/// chain that has a key x every algorithm of `algs` x every entry of `bad_key_menu` x {beside, instead of the
+/// good signature / DS} x two routes to the key parser:
+/// (A) the key sits in the (validly re-signed) DNSKEY RRset and an RRSIG of the validated answer selects it;
+/// (B) the parent's (validly re-signed) DS RRset selects it and an RRSIG over the DNSKEY RRset selects it.
+/// Only cases in which every fault changes the message it is applied to, and whose upstream targets are asked
+/// for in the unfaulted run.
+fn bad_key_cases(hiers: &[Arc<Hier>], hi: usize, q: &Query, algs: &[u8], ds_algs: &[u8], counts: &Mutex<BTreeMap<String, u64>>) -> Vec<Case> {
+    let h = &hiers[hi];
+    let base = run_direct(h, q, &Arc::new(vec![]));
+    let mut out = vec![];
+    for zone in 0..h.zones.len().min(3) {
+        if h.zones[zone].key.is_none() {
+            continue;
+        }
+        let apexk = key(&h.zones[zone].apex);
+        let apex = show(&h.zones[zone].apex);
+        let asked = |t: u16| base.asked.iter().any(|(n, ty)| *ty == t && key(n) == apexk);
+        if !asked(T_DNSKEY) {
+            continue;
+        }
+        let main_alters = |op: &Op| {
+            let mut r = h.answer(&q.name, q.qtype);
+            let before = r.encode();
+            apply_op(h, op, &mut r, true);
+            r.encode() != before
+        };
+        for &alg in algs {
+            for shape in 0..bad_key_menu(alg).len() as u8 {
+                for only in [false, true] {
+                    let op = |only: bool| Op::BadKey { zone, alg, shape, only };
+                    if main_alters(&op(only)) {
+                        out.push(Case { hi, q: q.clone(), faults: Arc::new(vec![Fault { target: Target::Up(apex.clone(), T_DNSKEY), op: op(false) }, Fault { target: Target::Main, op: op(only) }]), conn: true });
+                        *counts.lock().unwrap().entry("cases|malformed-public-key|answer-rrsig-selects-the-key".into()).or_insert(0) += 1;
+                    }
+                    if zone > 0 && asked(T_DS) && ds_algs.contains(&alg) {
+                        out.push(Case { hi, q: q.clone(), faults: Arc::new(vec![Fault { target: Target::Up(apex.clone(), T_DNSKEY), op: op(only) }, Fault { target: Target::Up(apex.clone(), T_DS), op: op(only) }]), conn: true });
+                        *counts.lock().unwrap().entry("cases|malformed-public-key|ds-selects-the-key".into()).or_insert(0) += 1;
+                    }
+                }
+            }
+        }
+    }
+    out
 }
 
 // ------------------------------------------------------------ histories across zone changes
@@ -5327,6 +5529,13 @@ fn main() {
     let n_redirect_plans = plan.len() - plan_before_redirect;
     let counts = Mutex::new(BTreeMap::new());
     let planned: Vec<(Vec<Case>, Vec<Fault>)> = plan.par_iter().map(|(hi, qq, mode, pairs)| cases_for(&run.hiers, *hi, qq, *mode, *pairs, &counts)).collect();
+    // malformed public key selected by a signature (see `bad_key_cases`)
+    let bad_key_hiers: Vec<usize> = if quick { vec![0] } else { vec![0, 1, 2, 3] };
+    let bad_key_queries: Vec<Query> = if quick { vec![q("www.zone.tld.", T_A), q("www.tld.", T_A), q("tld.", T_DS)] } else { vec![q("www.zone.tld.", T_A), q("nx.zone.tld.", T_A), q("x.w.zone.tld.", T_A), q("www.tld.", T_A), q("zone.tld.", T_DS), q("tld.", T_DS)] };
+    // the DS route in the quick tier: the algorithms for which the validator accepts a DS
+    let bad_key_ds_algs: Vec<u8> = if quick { vec![5, 7, 8, 10, 13] } else { BAD_KEY_ALGS.to_vec() };
+    let bad_key_plan: Vec<(usize, Query)> = bad_key_hiers.iter().flat_map(|hi| bad_key_queries.iter().map(move |qq| (*hi, qq.clone()))).collect();
+    let bad_cases: Vec<Case> = bad_key_plan.par_iter().flat_map_iter(|(hi, qq)| bad_key_cases(&run.hiers, *hi, qq, &BAD_KEY_ALGS, &bad_key_ds_algs, &counts)).collect();
     run.stats.merge_counts(&counts.lock().unwrap());
     if std::env::var("C14_DRY").is_ok() {
         println!("{}", run.stats.counters_json());
@@ -5458,7 +5667,7 @@ fn main() {
         let (hi, qq, faults, ta) = &flag_cases[*i];
         judge_flags(&ctx, &run.stats, &run.hiers[*hi], qq, faults, *ta, *fl, false);
     });
-    let cases: Vec<&Case> = planned.iter().flat_map(|p| p.0.iter()).collect();
+    let cases: Vec<&Case> = planned.iter().flat_map(|p| p.0.iter()).chain(bad_cases.iter()).collect();
     cases.par_iter().for_each(|c| run.run_case(c, Some(&wd)));
     // pairs, generated row by row
     let rows: Vec<(usize, usize)> = planned.iter().enumerate().flat_map(|(pi, p)| (0..p.1.len()).map(move |i| (pi, i))).collect();
@@ -5558,6 +5767,15 @@ fn main() {
                 "one_context": {"scenarios": if quick { 4 } else { 5 }, "queries": case_queries.len(), "owner_spellings": 2, "spelling_sequences": case_seqs.len(), "contexts": case_jobs.len(),
                     "rule": "one ValidationContext validates the authentic answers for the same (name, type) in every ordered sequence of two (thorough: also three) different spellings"},
                 "oracle": "unchanged: the authentic answer is Secure (Insecure below the insecure delegation) whatever the spelling and whatever was validated before on the context; Secure => every RRset authentic with a valid RRSIG and the claim true with a complete NSEC/NSEC3 proof (canonical, i.e. lower-case, names: RFC 4034 6.2, RFC 5155 5)",
+            },
+            "malformed_public_key_dimension": {
+                "scenarios": bad_key_hiers.iter().map(|hi| run.hiers[*hi].name).collect::<Vec<_>>(),
+                "queries": bad_key_queries.iter().map(|x| format!("{} {}", show(&x.name), tname(x.qtype))).collect::<Vec<_>>(),
+                "cases": bad_cases.len(),
+                "public_key_fields": BAD_KEY_ALGS.iter().map(|a| (a.to_string(), bad_key_menu(*a).iter().map(|k| if k.len() <= 8 { hex(k) } else { format!("{}..({} octets)", hex(&k[..6]), k.len()) }).collect::<Vec<_>>())).collect::<BTreeMap<_, _>>(),
+                "faults": "every zone of the chain that has a key (root, tld., zone.tld.) x algorithms {5,7,8,10 RSA; 13,14 ECDSA; 15,16 EdDSA} x every hostile public-key field of the menu x {beside, instead of the authentic signature / DS}; route A: the DNSKEY (flags 256) is put first in the zone's DNSKEY RRset, which is re-signed with the zone's real key, and every RRSIG the zone made in the validated answer gets a companion (or is replaced by one) whose algorithm and key tag (own RFC 4034 appendix B routine) select it; route B: the parent's DS RRset, re-signed with the parent's real key, gets a SHA-256 DS of the malformed key in front of (instead of) the authentic DS and the DNSKEY RRset an RRSIG selecting it in front of (instead of) the authentic one",
+                "oracle": "never a panic, never more than the upstream budget; beside the authentic key and signatures the verdict is the one of the unmodified answer (Secure, Insecure below the insecure delegation); with only the malformed key selected never Secure; through validate_msg and Connection",
+                "ds_route_algorithms": bad_key_ds_algs,
             },
             "connection_flag_product": {"answers": flag_cases.len(), "runs": flag_runs.len(), "rule": "request flags {AD,DO,CD} x upstream AD x upstream OPT record x answers that are Secure (also with TTLs to be clamped) / Insecure / Bogus / Indeterminate"},
             "samples": run.stats.samples(),
